@@ -32,3 +32,13 @@ func RemovePrefix(prefix string, mask *fieldmaskpb.FieldMask) *fieldmaskpb.Field
 	}
 	return out
 }
+
+// normalPaths returns paths without duplicates and without paths that lie below another path in the list.
+// fmutils builds a nested mask in which a child path narrows its parent ({"a", "a.b"} selects only a.b),
+// in a FieldMask the parent path selects the whole field.
+func normalPaths(paths []string) []string {
+	if len(paths) < 2 {
+		return paths
+	}
+	return fieldmaskpb.Union(&fieldmaskpb.FieldMask{Paths: paths}, &fieldmaskpb.FieldMask{}).GetPaths()
+}
